@@ -28,15 +28,25 @@ type replayCase struct {
 	Seed int64        `json:"seed"`
 }
 
+// Twice records the (program, type) pairs that are the type of two columns (C<type> and D<type>).
+var Twice = map[string]bool{}
+
 // addTable appends a table struct with one column per top-level value type of the program.
 func addTable(p *absprog.Prog) {
 	row := absprog.Decl{K: "struct", Name: "Row", Fields: []absprog.Field{{Name: "Id", Type: absprog.Basic("int64")}}}
+	twice := 0
 	for _, d := range p.Decls {
 		if d.Pkg != "" || d.File != "" || d.Name == "Row" {
 			continue
 		}
 		if d.K == "struct" || d.K == "named" {
 			row.Fields = append(row.Fields, absprog.Field{Name: "C" + d.Name, Type: absprog.Ref("", d.Name)})
+			// some types twice in the table: every jsonb column needs its own CHECK
+			if twice < 4 && (d.K == "struct" || d.Name == "Flags" || d.Name == "Shapes") {
+				twice++
+				row.Fields = append(row.Fields, absprog.Field{Name: "D" + d.Name, Type: absprog.Ref("", d.Name)})
+				Twice[fmt.Sprint(p.ID, d.Name)] = true
+			}
 		}
 	}
 	p.Decls = append(p.Decls, row)
@@ -109,6 +119,7 @@ func Run(c *core.Ctx, replay string) (*core.Result, error) {
 		recs = append(recs, rec)
 		refs[id] = ref{pb.Prog, ""}
 		hasCheck := map[string]bool{}
+		seenTwin := map[string]int{}
 		for _, ck := range script.Checks {
 			hasCheck[ck.Table+"."+ck.Col] = true
 		}
@@ -125,8 +136,17 @@ func Run(c *core.Ctx, replay string) (*core.Result, error) {
 			}
 			typ := r["type"].(string)
 			col := "C" + typ
-			if !hasCheck["rows."+col] {
+			twin := "D" + typ
+			isTwice := Twice[fmt.Sprint(pb.Prog.ID, typ)]
+			if !hasCheck["rows."+col] && !(isTwice && hasCheck["rows."+twin]) {
 				continue // not a jsonb column (C08 decides which columns are)
+			}
+			if isTwice && seenTwin[fmt.Sprint(pb.Prog.ID, typ)] < 3 {
+				// the second column of the same type is judged on a few emitted documents (a missing CHECK is reported by TracePg)
+				seenTwin[fmt.Sprint(pb.Prog.ID, typ)]++
+				id++
+				recs = append(recs, map[string]any{"ev": "doc", "case": id, "table": "rows", "col": twin, "expect": "pass", "corruption": "", "doc": r["doc"]})
+				refs[id] = ref{pb.Prog, typ}
 			}
 			id++
 			recs = append(recs, map[string]any{"ev": "doc", "case": id, "table": "rows", "col": col, "expect": "pass", "corruption": "", "doc": r["doc"]})
